@@ -232,7 +232,7 @@ def run(ctx, scripts=None):
         for fn in sorted(os.listdir(CORPUS)) if os.path.isdir(CORPUS) else []:
             if fn.endswith(".janet"):
                 src = open(os.path.join(CORPUS, fn)).read()
-                pools.append(("corpus/" + fn, src, None, []))
+                pools.append(("corpus/" + fn, pg.literal_prelude() + "\n" + src, None, [pg.literal_prelude()]))
         n_pools = 1 if quick else 3
         if broken:
             n_pools += 2     # something no longer checks: search harder
@@ -242,7 +242,7 @@ def run(ctx, scripts=None):
             pools.append(("generated-%d" % p, script, labels, g.prelude))
     else:
         pools = scripts
-    tot = dict(pairs=0, triples=0, vmcalls=0, values=0, model_lines=0, model_diffs=0, classes=0, multi_classes=0, layouts=0, symbols=0)
+    tot = dict(litforms=0, pairs=0, triples=0, vmcalls=0, values=0, model_lines=0, model_diffs=0, classes=0, multi_classes=0, layouts=0, symbols=0)
     recipe_hist, type_hist, cap_hist = {}, {}, {}
     samples, diffs_all, direct = [], [], []
     for name, script, labels, prelude in pools:
@@ -255,7 +255,7 @@ def run(ctx, scripts=None):
             continue
         if labels is None:
             labels = [("corpus", "entry %d" % i) for i in range(n)]
-        for k in ("pairs", "triples", "vmcalls"):
+        for k in ("pairs", "triples", "vmcalls", "litforms"):
             tot[k] += int(pr.summary[k])
         tot["values"] += n
         tot["symbols"] += int(pr.summary["symbols"])
@@ -289,13 +289,26 @@ def run(ctx, scripts=None):
                 continue
             seen_laws.add(lawname)
             idx = [int(x) for x in t[2:5] if int(x) >= 0 and int(x) < n] if lawname not in ("symbol-identity",) else []
-            if lawname.startswith("struct-") or lawname.startswith("tuple-") or lawname == "vm-hash":
+            if lawname.startswith("struct-") or lawname.startswith("tuple-") or lawname == "vm-hash" or lawname.startswith("vm-literal"):
                 idx = idx[:1]
+            extra = ""
+            if lawname.startswith("vm-literal") and len(t) > 5:
+                # which literal / compiled shape: reconstruct the concrete expression
+                li = int(t[3])
+                code = t[5][5:] if t[5].startswith("code=") else "?"
+                lit = pg.LITERALS[li] if 0 <= li < len(pg.LITERALS) else "?"
+                shape, _, opc = code.partition("/")
+                opname = dict(pg.OPS).get(opc.lstrip("r").split("-")[-1], opc)
+                xsrc = labels[idx[0]][1][:120] if idx and idx[0] < len(labels) else "x"
+                expr = {"inline": "(%s x %s)", "if": "(if (%s x %s) true false)", "while": "(while (%s x %s) ...)", "apply": "(apply %s [x %s])"}.get(shape, "(%s x %s)")
+                if opc.startswith("r") and opc not in ("rcmp",):
+                    expr = expr.replace("x %s", "%s x")
+                extra = " -- form %s: %s with literal %s and x = %s; %s" % (code, expr % (opname, lit) if "%s" in expr else expr, lit, xsrc, " ".join(t[6:]))
             rs, small = minimise(idx, lawname) if idx else (script, False)
             direct.append(lawname)
             ctx.violation("law:" + lawname, {"kind": "law", "law": lawname, "line": l, "pool": name, "values": [info(i) for i in idx],
                                              "script": rs, "minimised": small, "replay_law": lawname},
-                          what="law `%s` fails on the implementation: %s" % (lawname, "; ".join("%s = %s" % (info(i)["source"][:80], info(i)["value"][:80]) for i in idx) or l))
+                          what="law `%s` fails on the implementation: %s%s" % (lawname, "; ".join("%s = %s" % (info(i)["source"][:80], info(i)["value"][:80]) for i in idx) or l, extra))
         # ---- (E2) content equality recomputed from the serialised trees
         can = {i: canon(terms[i]) for i in range(n)}
         lay = {i: layout(terms[i]) for i in range(n)}
@@ -523,13 +536,15 @@ def run(ctx, scripts=None):
         ctx.violation("broken:" + broken[0][:80], {"kind": "broken-obligation", "broken": broken, "first_diffs": diffs_all[:5]}, found=False,
                       what="no longer shown to hold: " + "; ".join(broken)[:700])
     cov = {
-        "evaluations": tot["pairs"] + tot["triples"] + tot["vmcalls"] + tot["model_lines"] + int((lay_summary or {}).get("builds", 0)),
+        "evaluations": tot["pairs"] + tot["triples"] + tot["vmcalls"] + tot["litforms"] + tot["model_lines"] + int((lay_summary or {}).get("builds", 0)),
         "distinct_nontrivial": tot["classes"],
         "rule": "pool values = every recipe of every content (atoms: literal / constructor / parse / unmarshal / nb-bits; tuples and structs: see recipe histogram); "
                 "non-trivial = distinct content class (python canonical form of the serialised value); laws checked on ALL ordered pairs and ALL ordered triples of each pool; "
-                "VM operators (= < <= > >= not= cmp compare inline and via apply, hash) checked against the C API on all pairs",
+                "VM operators (= < <= > >= not= cmp compare inline and via apply, hash) checked against the C API on all pairs; every pool value x every literal of vm_literals "
+                "through every compiled shape (immediate / constant / literal-left / if / while / and / apply / let-bound / n-ary chains) against the C API",
         "samples": samples[:8],
         "pools": [p[0] for p in pools], "values": tot["values"], "pairs": tot["pairs"], "triples": tot["triples"], "vm_operator_calls": tot["vmcalls"],
+        "vm_literal_shape_forms": tot["litforms"], "vm_literals": pg.LITERALS,
         "content_classes": tot["classes"], "content_classes_with_several_constructions": tot["multi_classes"],
         "model_lines": tot["model_lines"], "model_diffs": tot["model_diffs"], "struct_layout_rebuilds": tot["layouts"],
         "symbols_checked_for_identity": tot["symbols"], "symcache": sym_summary,
@@ -539,7 +554,7 @@ def run(ctx, scripts=None):
     }
     ctx.say("values %d pairs %d triples %d vmcalls %d classes %d (multi %d) model lines %d diffs %d layouts %d symcache %s" % (
         tot["values"], tot["pairs"], tot["triples"], tot["vmcalls"], tot["classes"], tot["multi_classes"], tot["model_lines"], tot["model_diffs"], tot["layouts"], sym_summary))
-    ctx.say("layout scenario %s model rebuilds %d" % (lay_summary, lay_model))
+    ctx.say("layout scenario %s model rebuilds %d; literal-shape forms %d" % (lay_summary, lay_model, tot["litforms"]))
     return ctx.finish("proof", cov, assumptions=[
         "NaN excluded (property text); abstract types (int/s64, int/u64, ...) are outside the model and outside the property's list",
         "numbers: model is parametric in an abstract lawful order (LawfulNum); executable instance = sign-magnitude reading of the 64-bit pattern, tied to the C's double == and < by correspondence",
